@@ -78,6 +78,27 @@ CHECKS = {
    design_ref="DESIGN.md section 3 C05",
    note="Quick tier: <= 8 values of k per case spread over the measured range; thorough: all k. preempt_point hooks never yield in cancellation mode, so no future is dropped where the real code cannot be suspended. A cancelled set_input/update/refresh may have had no effect or its full effect.",
    engine="E2 single-thread scheduler"),
+ "C12": dict(
+   technique="property-based testing over a compile-time type universe: proptest tapes decoded into boundary-biased values of ~930 (+15 with smallvec/bitvec) monomorphised types; round-trip / cursor-position / back-to-back / prefix-freeness oracles; exhaustive enumeration of 8- and 16-bit integers and all varint boundaries",
+   category="exploration",
+   text="Every leaf type, every unary constructor over every leaf, binary constructors over leaf pairs, a fixed sample of depth-2/3 types and derived structs/enums (generic, skipped fields, same name in two modules) are instantiated at compile time; for generated values: decode(encode(v)) equals v (semantic equality: NaNs identified, unordered collections as sets), the decoder's cursor ends exactly where the encoder stopped (trailer appended), two values written back to back are read back in sequence, and no proper prefix of an encoding decodes completely. All u8/i8/u16/i16 values and every 2^(7k)+{-1,0,1}, 2^(8k)+-1, MIN/MAX of wider integers are enumerated. Built and run twice (without and with smallvec+bitvec); a supervisor process isolates aborts (absurd allocations) to a type.",
+   design_ref="DESIGN.md section 3 C12",
+   note="The universe is a finite sample of an infinite closure (depth <= 3). Interned handles are checked by C15.",
+   engine="E5 type universe"),
+ "C13": dict(
+   technique="property-based testing over the type universe with an instrumented recording hasher; metamorphic relations (construction history, serialization round trip, neighbour values); differential comparison of three independent processes",
+   category="exploration",
+   text="For every type with StableHash: a generated value, the same logical value rebuilt through another construction history (reversed insertion order, different capacity, fresh RandomState) and decode(encode(v)) hash equally under three hasher keys; a neighbour value (one tape byte changed) that differs from v must feed a different byte stream to a recording hasher, neither stream a proper prefix of the other, and get a different 128-bit hash. Three separately started processes print the hashes of a fixed value list and all type ids; outputs are compared byte for byte.",
+   design_ref="DESIGN.md section 3 C13",
+   note="Cannot see 128-bit SipHash collisions; the claim checked is 'different values => different unambiguous streams'. 0.0 and -0.0 are different values, all NaNs one value (documented normalisation).",
+   engine="E5 type universe"),
+ "C14": dict(
+   technique="exhaustive pairwise comparison of ~1000 compile-time type-id constants + generated search over a differentially validated term mirror of the id computation; query-id uniqueness over generated keys; cross-process comparison",
+   category="exploration",
+   text="(a) the STABLE_TYPE_ID constants of every type of the universe plus an id-only list of permuted / re-nested / re-ordered instantiations (tuples to arity 6, arrays, Result, maps, wrappers, pointers, cells, atomics, derived generics) are compared pairwise by canonical type name; (b) a term mirror computes ids with the real from_unique_type_name/combine in the shape of the impls, is validated against real constants per constructor, and 2 million (thorough 40 million) generated terms plus their structural neighbours are checked for id collisions and combine laws; (c) QueryIDs of the seven harness query types over 3000 keys x 2 hasher seeds; (d) ids printed by three processes are compared (with C13).",
+   design_ref="DESIGN.md section 3 C14",
+   note="An accidental 128-bit collision outside the explored set cannot be excluded. Engine-visible aliasing is additionally covered by every C01 run (all query types share every key payload).",
+   engine="E5/E6 type universe"),
 }
 
 NOT_YET = {
@@ -120,6 +141,7 @@ def main():
             {"name": "E1 sequential interpreter", "path": "harness/vcore/src/seq.rs", "serves_properties": ["C01", "C03", "C07"], "kind_free_text": "program/history interpreter with from-scratch oracle, proptest driver (harness/vcore/src/driver.rs)"},
             {"name": "E2 single-thread scheduler", "path": "harness/vcore/src/sched.rs", "serves_properties": ["C02", "C04", "C05", "C06"], "kind_free_text": "tape-driven select loop over harness futures + verif_hooks controller; idle-runtime deadlock oracle (paused tokio clock)"},
             {"name": "E7 thread stress", "path": "harness/vcore/src/ck_sets.rs", "serves_properties": ["C02"], "kind_free_text": "generated OS-thread plans with interleaving-independent oracles"},
+            {"name": "E5 type universe", "path": "harness/vtypes/src/main.rs", "serves_properties": ["C12", "C13", "C14"], "kind_free_text": "macro-generated monomorphised type list with value generators, recording hasher, term mirror; supervisor/worker process isolation"},
             {"name": "E4 storage model harness", "path": "harness/vcore/src/ck_storage.rs", "serves_properties": ["C09", "C10"], "kind_free_text": "op-stream interpreters over the public storage types with reference models"},
             {"name": "E3 MockKv", "path": "harness/vcore/src/mockkv.rs", "serves_properties": ["C01", "C03", "C07", "C08", "C09", "C10"], "kind_free_text": "scripted logging KvDatabase with commit gate, grouping policy, prefix re-materialisation"},
         ],
